@@ -52,20 +52,31 @@ def replay_file_text(params, inputs):
     return 'params ' + ' '.join(str(p) for p in params) + '\n' + '\n'.join(str(v[2]) for v in inputs) + '\n'
 
 
-def run_native(exe, entry, params, inputs, timeout=60):
+NATIVE_ENV = {}      # extra environment of native runs (spec.NATIVE_ENV), e.g. delays at the guarded schedule hooks
+
+
+NATIVE_TIMEOUT = [120]
+
+
+def run_native(exe, entry, params, inputs, timeout=None):
     """-> (status, notes, output); status in ok / assume / assert / sanitizer / crash / timeout"""
+    if timeout is None: timeout = NATIVE_TIMEOUT[0]
     d = tempfile.mkdtemp(prefix='vp_nat_', dir=os.environ.get('VP_TMP', '/tmp'))
     try:
         rp = d + '/in.txt'; nt = d + '/notes.txt'
         open(rp, 'w').write(replay_file_text(params, inputs))
-        env = dict(os.environ, VP_REPLAY=rp, VP_NOTES=nt, ASAN_OPTIONS='detect_leaks=1:abort_on_error=0:exitcode=98:allocator_may_return_null=1:max_allocation_size_mb=4096',
+        env = dict(os.environ, **NATIVE_ENV)
+        env.update(VP_REPLAY=rp, VP_NOTES=nt, ASAN_OPTIONS='detect_leaks=1:abort_on_error=0:exitcode=98:allocator_may_return_null=1:max_allocation_size_mb=4096',
                    UBSAN_OPTIONS='print_stacktrace=1:halt_on_error=1:exitcode=97', LSAN_OPTIONS='exitcode=96')
         try:
             r = subprocess.run([exe, entry], stdout=subprocess.PIPE, stderr=subprocess.STDOUT, env=env, timeout=timeout, cwd=d)
             out = r.stdout.decode('latin1')[-3000:]
             rc = r.returncode
-        except subprocess.TimeoutExpired:
-            return 'timeout', [], ''
+        except subprocess.TimeoutExpired as te:
+            po = (te.stdout or b'').decode('latin1')[-3000:]
+            if 'ERROR: AddressSanitizer' in po:      # a report from a thread that then hangs in the sanitizer's exit path
+                return 'sanitizer', [], po
+            return 'timeout', [], po
         notes = []
         if os.path.exists(nt):
             notes = [int(x) for x in open(nt).read().split()]
@@ -104,6 +115,8 @@ def main(argv):
     seed = int(os.environ.get('VERIF_SEED', '0') or 0)
     t_start = time.time()
     spec = load_spec(prop)
+    NATIVE_ENV.update(getattr(spec, 'NATIVE_ENV', {}))
+    NATIVE_TIMEOUT[0] = getattr(spec, 'NATIVE_TIMEOUT', 120)
     if hasattr(spec, 'main'):
         return spec.main(a)
     workdir = tempfile.mkdtemp(prefix='vp_%s_' % prop, dir=os.environ.get('VP_TMP', '/tmp'))
@@ -128,7 +141,7 @@ def run_check(a, prop, spec, workdir, seed, t_start):
             extra = [os.path.join(VERIF, 'harness', prop, x) if not x.startswith('/') else x for x in g.get('extra_cpp', [])]
             nat_extra = extra + [os.path.join(VERIF, 'env', x) for x in g.get('native_extra', getattr(spec, 'NATIVE_EXTRA', []))]
             futs.append((g, 'ir', ex.submit(build.build_ir, workdir + '/ir_' + g['name'], g['sources'], h, g.get('env', ['vlibc.c']), extra, g.get('defines', []))))
-            futs.append((g, 'nat', ex.submit(build.build_native, workdir + '/nat_' + g['name'], g['sources'], h, nat_extra, g.get('defines', []))))
+            futs.append((g, 'nat', ex.submit(build.build_native, workdir + '/nat_' + g['name'], g['sources'], h, nat_extra, g.get('defines', []) + list(getattr(spec, 'NATIVE_DEFINES', [])))))
         for g, k, f in futs:
             g[k] = f.result()
     for g in groups:
